@@ -172,7 +172,13 @@ Verdict judge_c11(Plan const& p, History const& h, RunInfoLite const& ri)
   Verdict d = delivery_part(p, h, ri, m, v);
   if (d.kind != Verdict::OK)
   {
-    d.tag = "delivery:" + d.tag;
+    if (d.kind == Verdict::VIOLATION)
+    {
+      // C11 says nothing about delivery: a run whose statements are lost, duplicated or garbled (another property's
+      // business) cannot be judged for allocations and formatting threads — inconclusive, not a C11 alarm
+      d.kind = Verdict::INCONCLUSIVE;
+      d.tag = "delivery_broken:" + d.tag;
+    }
     return d;
   }
   std::set<int> backend(h.backend_ids.begin(), h.backend_ids.end());
